@@ -55,6 +55,7 @@ class Norm:
         self.val = {}                     # valuation: expression string -> concrete value / atom -> truth (case analysis)
         self._vguard = set()
         self._in_assume = False
+        self._in_cond_fold = False
         self.accessors = accessors        # also read through field accessors `T f() const { return <expr over fields>; }`
         self.mark_post = None             # field names whose reads AFTER a write in this function are printed with a prime
         self.synonyms = ()                # (qualified name, number of parameters or None): reference functions that are read through
@@ -71,6 +72,20 @@ class Norm:
         seen = 0
         while n is not None and seen < 8:
             r = n.get('ref')
+            if n['k'] == 'ConditionalOperator' and self.val and not self._in_cond_fold:
+                # under a case valuation a conditional expression whose condition the case decides is the chosen arm
+                self._in_cond_fold = True
+                try:
+                    c_ = cond_value(self, kids(n)[0], self.val)
+                except Unknown:
+                    c_ = None
+                finally:
+                    self._in_cond_fold = False
+                if c_ is None:
+                    break
+                n = self.strip(kids(n)[1] if c_ else kids(n)[2])
+                seen += 1
+                continue
             if r and r['k'] == 'Local' and r['n'] not in self.env and r['n'] not in self.keep:
                 if not self.inline:
                     # names are kept, except locals the reference tree did not have
